@@ -33,7 +33,11 @@ def _model(kind, o, x, method, n, order):
         num = mn + int(d['num_extrap'])
     idx = range(num) if kind == 'Max' else range(num - 1, -1, -1)
     sgn = -1 if kind == 'Max' else 1
-    return [base * nom * ratio ** (sgn * i + d['offset']) for i in idx]
+    bn = base * nom
+    if d['use_exact_steps']:
+        bn = (bn + 1.0) - 1.0          # make_exact applies to base_step * step_nom (documented) and to the ratio
+        ratio = (ratio + 1.0) - 1.0
+    return [bn * ratio ** (sgn * i + d['offset']) for i in idx]
 
 
 @reg('C10.seq')
@@ -50,10 +54,10 @@ def seq(case):
             if kind == 'Max':
                 o = {k: v for k, v in o.items() if not (k == 'base_step' and v is None)}
             for method, n, order in [('forward', 1, 2), ('central', 2, 4), ('complex', 3, 4), ('backward', 4, 1)]:
-                for x in (0.5, np.array([0.3, 20.0])):
+                for x in (0.5, np.array([0.3, 20.0]), -3.0, np.array([-0.3, -20.0, 7.5])):
                     got = list(cls(**o)(x, method, n, order))
                     want = _model(kind, o, x, method, n, order)
-                    ok = len(got) == len(want) and all(np.allclose(g, w, rtol=1e-9, atol=0) for g, w in zip(got, want))
+                    ok = len(got) == len(want) and all(np.allclose(g, w, rtol=1e-13, atol=0) for g, w in zip(got, want))
                     if not ok:
                         bad.append(dict(cls=kind, options={k: v for k, v in o.items()}, method=method, n=n, order=order,
                                         got=[np.asarray(g).tolist() for g in got[:3]], expected=[np.asarray(w).tolist() for w in want[:3]],
